@@ -670,7 +670,7 @@ pub fn mutant_strategy() -> impl Strategy<Value = Mutant> {
     let sites = |v: Vec<&'static str>| prop::sample::select(v).prop_map(|s| s.to_string());
     let mutation = prop_oneof![
         4 => sites(vec!["doc", "root", "logger", "appender", "encoder", "policy", "trigger", "roller"]).prop_map(Mutation::UnknownKey),
-        3 => sites(vec!["root.level", "logger.additive", "logger.level", "appender.path", "appender.append", "roller.count", "trigger.limit", "refresh_rate", "root.appenders"]).prop_map(Mutation::WrongType),
+        4 => sites(vec!["root.level", "logger.additive", "logger.level", "appender.path", "appender.append", "roller.count", "trigger.limit", "refresh_rate", "root.appenders", "encoder.pattern", "trigger.interval", "roller.pattern-no-braces", "appender.kind", "appender.filters"]).prop_map(Mutation::WrongType),
         2 => sites(vec!["appender", "encoder", "policy", "trigger", "roller"]).prop_map(Mutation::UnknownKind),
         2 => sites(vec!["appender.kind", "appender.path", "roller.count", "roller.pattern", "trigger.kind", "logger.level", "policy.trigger"]).prop_map(Mutation::Missing),
         1 => (0u8..2).prop_map(Mutation::BrokenFilter),
@@ -808,6 +808,32 @@ fn apply(doc: &mut DV, lc: &LC, m: &Mutant) -> Expect {
                 let a = choose!(sized);
                 doc.at_mut(&apps_path(&a.name, &["policy", "trigger"])).unwrap().insert("limit", DV::s("10 parsecs"));
                 Expect::AppenderDropped(a.name.clone())
+            }
+            "encoder.pattern" => {
+                let a = choose!(with_enc);
+                doc.at_mut(&apps_path(&a.name, &["encoder"])).unwrap().insert("pattern", DV::Seq(vec![DV::Int(1)]));
+                // a JSON encoder section has no pattern key at all: then it is an unknown key; same outcome
+                Expect::AppenderDropped(a.name.clone())
+            }
+            "trigger.interval" => {
+                let a = choose!(timed);
+                doc.at_mut(&apps_path(&a.name, &["policy", "trigger"])).unwrap().insert("interval", DV::Seq(vec![DV::s("1 day")]));
+                Expect::AppenderDropped(a.name.clone())
+            }
+            "roller.pattern-no-braces" => {
+                let a = choose!(fixed);
+                doc.at_mut(&apps_path(&a.name, &["policy", "roller"])).unwrap().insert("pattern", DV::s("archive-without-index.log"));
+                Expect::AppenderDropped(a.name.clone())
+            }
+            "appender.kind" => {
+                let a = choose!(lc.apps.iter().collect::<Vec<_>>());
+                doc.at_mut(&apps_path(&a.name, &[])).unwrap().insert("kind", DV::Seq(vec![DV::s("file")]));
+                Expect::RejectedSomewhere(a.name.clone())
+            }
+            "appender.filters" => {
+                let a = choose!(lc.apps.iter().collect::<Vec<_>>());
+                doc.at_mut(&apps_path(&a.name, &[])).unwrap().insert("filters", DV::s("threshold"));
+                Expect::RejectedSomewhere(a.name.clone())
             }
             _ => Expect::NotApplicable,
         },
